@@ -25,15 +25,32 @@ AsBuiltMisses(t, centre, want) ==
         \/ \A b \in bs : a.cell[i] < b.lo[i]
         \/ \A b \in bs : a.cell[i] > b.hi[i]
 
+(* a query may be asked at a smaller radius of its own (q.k <= t.k: the certified box still holds) *)
+KOf(t, q) == IF "k" \in DOMAIN q THEN q.k ELSE t.k
+(* "given molecule" queries: the centre handed to the library is displaced from the sites by at most dm micro-Angstrom.  The
+   answer is that of the sites themselves provided (1) the displacement is below the threshold in force, (2) no atom lies
+   within m grid units^2 of the query sphere, and (3) m grid units^2 cover the change of a squared distance by such a
+   displacement at radii up to 13 A:  m u^2/n^2 >= 2 R d + d^2 *)
+GivenGuard(t, q, ucpts) ==
+  LET centre == SeqSet(q.centre)
+      H == t.K
+      near == {a \in Expected(t.gram, ucpts, centre, q.k + 1 + q.m, t.K, t.n, FALSE) :
+                 \E c \in centre : Dist2N(t.gram, c, a.p) >= q.k - q.m /\ Dist2N(t.gram, c, a.p) <= q.k + 1 + q.m}
+  IN IF ~(q.k >= 1 /\ q.m >= 1 /\ q.k + q.m + 1 <= t.k /\ q.dm \in 1..20000) THEN "OOD given-shape"
+     ELSE IF q.dm >= q.thr_um THEN "OOD displacement-above-threshold"
+     ELSE IF q.m * t.u2m < t.n * t.n * (26 * q.dm + 1) THEN "OOD margin"
+     ELSE IF near # {} THEN "OOD atom-near-sphere"
+     ELSE ""
 QueryVerdict(t, q, ucpts) ==
   LET centre == SeqSet(q.centre)
-      want == Expected(t.gram, ucpts, centre, t.k, t.K, t.n, q.excl)
+      want == Expected(t.gram, ucpts, centre, KOf(t, q), t.K, t.n, q.excl)
       wantP == {a.p : a \in want}
       got == {q.rows[i].p : i \in DOMAIN q.rows}
       kf == IF AsBuiltMisses(t, centre, want) THEN " KF=C03-search-box" ELSE ""
       tag == ":" \o q.kind
   IN
   IF ~BoxCertificate(t.gram, centre, t.k, t.K, t.n) THEN "OOD box" ELSE
+  IF q.kind = "molecule_environment_given" /\ q.exc = "" /\ GivenGuard(t, q, ucpts) # "" THEN GivenGuard(t, q, ucpts) ELSE
   IF q.exc # "" THEN "REJECT Raised" \o tag ELSE
   IF q.off THEN "REJECT OnGrid" \o tag ELSE
   IF Cardinality(got) # Len(q.rows) THEN "REJECT Duplicate" \o tag ELSE
